@@ -12,7 +12,7 @@ RULE = ("repodata documents with 0-8 artifacts per section (packages / packages.
         "parsed result checked entry by entry with an independent signer; second signing; client-side reconstruction verified through verify_delegation; "
         "cross-artifact substitution.  non-trivial = >= 2 artifacts; distinct by document")
 
-THEOREMS = ["signRepo_ok", "sigSection_keys", "sigSection_entry", "signRepo_other_fields", "client_verifies", "signRepo_idempotent", "cross_artifact_or_forgery", "other_members_do_not_matter"]
+THEOREMS = ["signRepo_ok", "sigSection_keys", "sigSection_entry", "signRepo_other_fields", "client_verifies", "signRepo_idempotent", "cross_artifact_or_forgery", "other_members_do_not_matter", "concurrent_jobs_independent", "two_signing_runs", "job_alone"]
 
 
 def order_to_depth(v, depth: int):
